@@ -350,4 +350,153 @@ Proof.
       * destruct hd; pose proof (mu_nonneg ncols rows offsd); lia.
 Qed.
 
+Lemma Forall_skipn' {A} (Pp:A -> Prop) n l : Forall Pp l -> Forall Pp (skipn n l).
+Proof.
+  revert l. induction n as [|n IH]; intros l H; [exact H|]. destruct l as [|x l]; [constructor|].
+  cbn [skipn]. inversion H; subst. auto.
+Qed.
+
+Lemma pre_split' m : render_file (hdr :: firstn m rows) ++ render_file (skipn m rows) = ALL.
+Proof. unfold ALL. rewrite <- render_file_app. cbn [app]. rewrite firstn_skipn. reflexivity. Qed.
+
+Lemma Mz_nonneg m d : InvR m d -> 0 <= Mz d.
+Proof.
+  intros (Hm & _ & Hacc & _). unfold Mz. rewrite Hacc. pose proof (mu_nonneg ncols rows (d_offs d)).
+  unfold len. destruct (fresh d); lia.
+Qed.
+
+(* any iteration after the first *)
+Lemma step_general m d : InvR m d -> ((m < length rows)%nat \/ fresh d = false) ->
+  d_chunk d < len file /\
+  exists j d', drv_step file ncols cbs index_map d = Ok (inl d') /\ InvR (m + j) d' /\ Mz d' + 1 <= Mz d.
+Proof.
+  intros (Hm & Hh & Hacc & Himps & Hok & Hlv & (wd & Hwd & Hsh) & H0 & Hposn) Hgo.
+  pose proof cbs_pos' as Hcbs. pose proof Hok as (Hlo & Ho0 & Hob).
+  set (T := skipn m rows).
+  assert (HTrect : Forall (fun r : list cell => len r = ncols) T) by (apply Forall_skipn'; exact Hrect).
+  assert (Hsh' : shape ncols (wd - 1 + 1) (d_inds d)) by (replace (wd - 1 + 1) with wd by lia; exact Hsh).
+  destruct d as [chunk hd acc inds vals doffs dif dvf cont st imps tr].
+  unfold Mz, fresh in *. cbn [d_chunk d_hdr d_acc d_ifull d_vfull d_offs d_inds d_vals d_imps d_content d_start] in *.
+  subst hd acc imps.
+  destruct (negb dif && negb dvf) eqn:Efr.
+  - (* a fresh window *)
+    destruct Hgo as [Hlt|Hgo]; [|discriminate].
+    assert (HTne : T <> []).
+    { unfold T. intros E. pose proof (skipn_length m rows) as Hs. rewrite E in Hs. cbn in Hs. lia. }
+    assert (HTwin : forall r, In r T -> len (render_row r) <= cbs).
+    { intros r Hr. apply Hwin. right. unfold T in Hr. rewrite <- (firstn_skipn m rows). apply in_or_app. right. exact Hr. }
+    destruct (window_records file ALL cbs Hfile Hcbs ncols crs T (render_file (hdr :: firstn m rows)) eq_refl Hncols (pre_split' m) HTne HTrect
+                (last_render_file _) HTwin) as (Hc0 & Hlt2 & k & p & Ec & (Hk1 & Hk2) & _ & Hp).
+    fold (pos m) in Hc0, Hlt2, Ec. rewrite <- Hposn in Hc0, Hlt2, Ec. split; [exact Hlt2|].
+    assert (Hcut : cutp T k p).
+    { destruct Hp as [->|(_ & Hp2 & Hp3)]; [left; reflexivity|right]. split; assumption. }
+    assert (Hrange : 0 <= 0 <= len (content_of file cbs chunk)).
+    { pose proof (len_nonneg (content_of file cbs chunk)). lia. }
+    destruct (kernel_gen_nohdr (content_of file cbs chunk) doffs (wd - 1) ncols Hlo Hncols ltac:(lia) (nthZ doffs ncols) T Ho0 Hob
+                ltac:(lia) HTrect k 0 inds vals p Hk2 Hrange Ec Hcut Hsh' H0 Hlv) as (out & Hk & HK).
+    destruct (after_call m chunk false inds vals doffs dif dvf cont st tr (content_of file cbs chunk) 0 0 k p out wd Hm) as (j & d' & Hd & HI & HM);
+      try assumption; try lia.
+    + rewrite Efr. auto.
+    + rewrite Efr in HM. unfold Mz, fresh in HM. exists j, d'. split; [exact Hd|]. split; [exact HI|]. lia.
+  - (* the same window re-entered at the saved offset *)
+    destruct Hposn as (Hchunk & Hst & Hps & k & p & Hkl & Hsuf & Hcut & Hs0). split; [exact Hchunk|].
+    destruct (kernel_gen_nohdr cont doffs (wd - 1) ncols Hlo Hncols ltac:(lia) (nthZ doffs ncols) T Ho0 Hob
+                ltac:(lia) HTrect k st inds vals p Hkl Hst Hsuf Hcut Hsh' H0 Hlv) as (out & Hk & HK).
+    destruct (after_call m chunk false inds vals doffs dif dvf cont st tr cont st st k p out wd Hm) as (j & d' & Hd & HI & HM);
+      try assumption; try lia.
+    + rewrite Efr. auto.
+    + intros _ E. rewrite Efr in E. discriminate.
+    + rewrite Efr in HM. unfold Mz, fresh in HM. exists j, d'. split; [exact Hd|]. split; [exact HI|]. lia.
+Qed.
+
+(* the first iteration: header line first *)
+Lemma step_first_r offs0 tr0 cont0 st0 : okoffs offs0 ->
+  exists j d', drv_step file ncols cbs index_map
+     (mkDst 0 true 0 (zeros2 ncols (crs * 2 + 1)) (zeros (last offs0 0)) offs0 false false cont0 st0
+            (map (fun _ => imp_new) index_map) tr0) = Ok (inl d') /\ InvR j d' /\
+     Mz d' + 1 <= 2 * len rows + 2 * mu offs0 + 2 /\ 0 < len file.
+Proof.
+  intros Hok. pose proof cbs_pos' as Hcbs. pose proof Hok as (Hlo & Ho0 & Hob).
+  assert (Hcrs : 0 < crs) by (unfold cbs in Hcbs; nia).
+  assert (HTrect : Forall (fun r : list cell => len r = ncols) (hdr :: rows)) by (constructor; assumption).
+  destruct (window_records file ALL cbs Hfile Hcbs ncols crs (hdr :: rows) [] eq_refl Hncols eq_refl ltac:(discriminate) HTrect
+              eq_refl Hwin) as (Hc0 & Hlt2 & k & p & Ec & (Hk1 & Hk2) & _ & Hp).
+  replace (len (@nil Z)) with 0 in * by reflexivity.
+  destruct k as [|k0]; [lia|]. cbn [firstn length nth] in *. rewrite render_file_cons, <- app_assoc in Ec.
+  assert (HVl : last offs0 0 = nthZ offs0 ncols) by (apply okoffs_last; assumption).
+  assert (HVn : 0 <= nthZ offs0 ncols) by (apply (okoffs_nonneg offs0 ncols Hok); lia).
+  assert (Hcut : cutp rows k0 p).
+  { destruct Hp as [->|(_ & Hp2 & Hp3)]; [left; reflexivity|right]. split; [lia|exact Hp3]. }
+  assert (Hshz : shape ncols (crs * 2 + 1) (zeros2 ncols (crs * 2 + 1))) by (apply shape_zeros2; lia).
+  assert (Hz0 : forall c, 0 <= c < ncols -> I2 (zeros2 ncols (crs * 2 + 1)) c 0 = 0) by (intros c Hc; apply I2_zeros2; lia).
+  assert (Hlz : len (zeros (last offs0 0)) = nthZ offs0 ncols) by (rewrite HVl; apply len_zeros; exact HVn).
+  destruct (kernel_gen_hdr (content_of file cbs 0) offs0 (crs * 2) ncols Hlo Hncols ltac:(lia) (nthZ offs0 ncols) rows Ho0 Hob
+              ltac:(lia) Hrect hdr k0 (zeros2 ncols (crs * 2 + 1)) (zeros (last offs0 0)) p ltac:(lia) Hhdr Ec Hcut Hshz Hz0 Hlz)
+    as (out & Hk & HK).
+  pose proof (len_render_row_ge hdr) as (_ & Hh1).
+  assert (Hsuf0 : suf (content_of file cbs 0) 0 = render_row hdr ++ (render_file (firstn k0 rows) ++ p)) by (rewrite suf_0; exact Ec).
+  pose proof (suf_app_len _ 0 _ _ ltac:(lia) Hsuf0) as Hsufb. rewrite Z.add_0_l in Hsufb.
+  assert (Hlenc : len (render_row hdr) <= len (content_of file cbs 0)).
+  { rewrite Ec, len_app. pose proof (len_nonneg (render_file (firstn k0 rows) ++ p)). lia. }
+  replace (crs * 2) with (crs * 2 + 1 - 1) in HK by lia.
+  destruct (after_call 0 0 true (zeros2 ncols (crs * 2 + 1)) (zeros (last offs0 0)) offs0 false false cont0 st0 tr0
+              (content_of file cbs 0) 0 (len (render_row hdr)) k0 p out (crs * 2 + 1) ltac:(lia)) as (j & d' & Hd & HI & HM);
+    try assumption; try lia.
+  - cbn [negb andb]. auto.
+  - unfold pos. cbn [firstn]. cbn [render_file map concat]. rewrite app_nil_r. lia.
+  - cbn [skipn]. lia.
+  - cbn [negb andb] in HM. exists j, d'. split; [|split; [exact HI|split; [cbn [Nat.add] in *; replace (Z.of_nat 0) with 0 in HM by reflexivity; lia|lia]]].
+    replace (map (fun _ : Z => imp_new) index_map) with (map (imp_of (firstn 0 rows)) index_map); [exact Hd|].
+    apply map_ext. intros c. apply imp_of_nil.
+Qed.
+
+Lemma loop_done_r d : InvR (length rows) d -> fresh d = true -> forall fuel, (1 <= fuel)%nat ->
+  drv_loop fuel file ncols cbs index_map d = Ok d.
+Proof.
+  intros (_ & _ & _ & _ & _ & _ & _ & _ & Hch) Hf fuel Hfu. rewrite Hf in Hch. destruct fuel as [|f]; [lia|]. cbn [drv_loop].
+  unfold pos in Hch. rewrite firstn_all in Hch. fold ALL in Hch.
+  assert (Hle : len file <= len ALL).
+  { destruct Hfile as [->|(E & _)]; [lia|]. rewrite <- E, len_app. pose proof (len_nonneg [NL]). lia. }
+  destruct (d_chunk d <? len file) eqn:E; [apply Z.ltb_lt in E; lia|reflexivity].
+Qed.
+
+Lemma loop_all_r : forall (n:nat) m d, InvR m d -> Mz d <= Z.of_nat n -> forall fuel, (n + 1 <= fuel)%nat ->
+  exists d', drv_loop fuel file ncols cbs index_map d = Ok d' /\ InvR (length rows) d' /\ fresh d' = true.
+Proof.
+  induction n as [|n IH]; intros m d HI HM fuel Hf.
+  - pose proof HI as (Hm & _).
+    destruct (fresh d) eqn:Efr; [destruct (Nat.eq_dec m (length rows)) as [->|Hne]|].
+    + exists d. split; [apply loop_done_r; [exact HI|exact Efr|lia]|auto].
+    + destruct (step_general m d HI ltac:(left; lia)) as (_ & j & d' & _ & HI' & HM'). pose proof (Mz_nonneg _ _ HI'). lia.
+    + destruct (step_general m d HI (or_intror Efr)) as (_ & j & d' & _ & HI' & HM'). pose proof (Mz_nonneg _ _ HI'). lia.
+  - pose proof HI as (Hm & _).
+    assert (Hcase : (fresh d = true /\ m = length rows) \/ ((m < length rows)%nat \/ fresh d = false)).
+    { destruct (fresh d); [|right; right; reflexivity]. destruct (Nat.eq_dec m (length rows)); [left; auto|right; left; lia]. }
+    destruct Hcase as [(Efr & ->)|Hgo].
+    + exists d. split; [apply loop_done_r; [exact HI|exact Efr|lia]|auto].
+    + destruct (step_general m d HI Hgo) as (Hch & j & d' & Hd & HI' & HM').
+      destruct fuel as [|f]; [lia|]. cbn [drv_loop].
+      destruct (d_chunk d <? len file) eqn:E; [|apply Z.ltb_ge in E; lia].
+      rewrite Hd. cbn [bind]. apply (IH (m + j)%nat d' HI'); lia.
+Qed.
+
+Theorem read_file_regrow offs0 fuel : okoffs offs0 ->
+  (2 * length rows + 2 * Z.to_nat (mu offs0) + 4 <= fuel)%nat ->
+  exists d, read_file fuel file crs ncols offs0 index_map = Ok d /\
+    d_acc d = len rows /\
+    map (fun m => (i_indices m, i_values m)) (d_imps d) =
+    map (fun ts => (enc_indices ts, enc_values ts)) (select index_map rows).
+Proof.
+  intros Hok Hf. unfold read_file. destruct fuel as [|f]; [lia|]. cbn [drv_loop d_chunk].
+  destruct (step_first_r offs0 [] [] 0 Hok) as (j & d1 & Hd & HI & HM & Hlen).
+  destruct (0 <? len file) eqn:E; [|apply Z.ltb_ge in E; lia].
+  fold cbs. rewrite Hd. cbn [bind].
+  pose proof (mu_nonneg ncols rows offs0) as Hmu.
+  destruct (loop_all_r (2 * length rows + 2 * Z.to_nat (mu offs0) + 2)%nat j d1 HI ltac:(unfold len in *; lia) f ltac:(lia)) as (d & Hl & HId & _).
+  exists d. split; [exact Hl|].
+  destruct HId as (_ & _ & Hacc & Himps & _).
+  split; [rewrite Hacc; reflexivity|]. rewrite Himps, firstn_all.
+  unfold select. rewrite !map_map. apply map_ext. intros c. reflexivity.
+Qed.
+
 End DriverR.
